@@ -1074,6 +1074,11 @@ SDcreate(int32       fid,  /* IN: file ID */
         HGOTO_ERROR(DFE_ARGS, FAIL);
     }
 
+    /* a dataset cannot be created (stored) through a read-only file handle */
+    if (handle->file_type == HDF_FILE && handle->hdf_mode == DFACC_RDONLY) {
+        HGOTO_ERROR(DFE_DENIED, FAIL);
+    }
+
     /* fudge the name since its optional */
     if ((name == NULL) || (name[0] == ' ') || (name[0] == '\0'))
         name = "DataSet";
